@@ -27,7 +27,7 @@ impl TcpChannelTask {
 //@fn rodbus/src/tcp/client.rs | TcpChannelTask::new | tags=C05,C12,C13,C20
 //@|    ensures r.wf(), r.client_loop.reader.parser is Tcp, r.client_loop.reader.logical().len() == 0,
 //@|        r.client_loop.decode == options.decode_level, !r.client_loop.enabled, r.client_loop.rx == rx,
-//@|        r.client_loop.tx_id.v() == 0, r.client_loop.timeout_counter.count() == 0,
+//@|        r.client_loop.timeout_counter.count() == 0,
 //@|        options.max_timeouts is None ==> r.client_loop.timeout_counter.limit() is None,
 //@|        options.max_timeouts is Some ==> r.client_loop.timeout_counter.limit() == Some(crate::nz_value(options.max_timeouts->Some_0)),
 //@|        r.connection_handler == connection_handler, r.connect_retry == connect_retry, r.listener == listener, r.host == host,
